@@ -41,6 +41,14 @@ HistoryLabels == {"U:upd:owns-unbound-state:commit", "U:upd:owns-unbound-state:a
 EmitCPurpose == (hist # <<>> /\ hist[Len(hist)].act \in {"Commit", "Abort"})
                 => LET fresh == (hist[Len(hist)].sit \cap HistoryLabels) \ TLCGet(7)
                    IN fresh # {} => (PrintT(<<"BEH", ToJson(hist)>>) /\ TLCSet(7, TLCGet(7) \cup fresh))
+\* test purposes for the kept entity object: keep it, write it in a transaction of its kind, commit / abort, change it
+EmitKPurpose == (hist # <<>> /\ hist[Len(hist)].act = "MutateCopy" /\ hist[Len(hist)].src = "kept_raw")
+                => LET fresh == hist[Len(hist)].sit \ TLCGet(7)
+                   IN fresh # {} => (PrintT(<<"BEH", ToJson(hist)>>) /\ TLCSet(7, TLCGet(7) \cup fresh))
+KpH == {"ch", "m1", "al", "op", "rt", "pc"}      \* one entity of every kind
+KpKind == [h \in KpH |-> SimKind[h]]
+KpInitParent == [h \in KpH |-> "ext"]
+KpParents == [h \in KpH |-> {}]
 CpH == {"pc", "vmd"}
 CpKind == [h \in CpH |-> IF h = "pc" THEN "ctx" ELSE "comp"]
 CpInitParent == [h \in CpH |-> "ext"]
